@@ -349,3 +349,283 @@ def _ns_unit(mode):
 U_NS_WAVELENGTH = _ns_unit("wavelength")
 U_NS_ENERGY = _ns_unit("energy")
 U_NS_DEFAULT = _ns_unit("default")
+
+
+# ------------------------------------------------------------------------------ Neutron.scattering / .sld
+
+def _nrec(st, table=False):
+    bre, bim, tot = (st.fresh(n, z3.RealSort()) for n in ("b_c_re", "b_c_im", "total"))
+    attrs = {"b_c": VOpt(st.fresh("b_c_is_none", z3.BoolSort()), st.fresh("b_c", z3.RealSort())),
+             "_number_density": VOpt(st.fresh("nd_is_none", z3.BoolSort()), st.fresh("number_density", z3.RealSort())),
+             "b_c_complex": Cx(bre, bim), "total": tot, "nsf_table": None}
+    return VObj((NSF, "Neutron"), attrs), bre, bim, tot
+
+
+def _nscat_inputs(st, interp):
+    use_state(st)
+    self, bre, bim, tot = _nrec(st)
+    w = st.fresh("wavelength", z3.RealSort())
+    st.ghost["is_vector"] = st.fresh("wavelength_is_vector", z3.BoolSort())
+    nd = self.attrs["_number_density"]
+    st.assume(z3.And(w > 0, tot > 0, z3.Implies(z3.Not(nd.is_none), nd.val > 0)))
+    return [self], {"wavelength": w}, dict(self=self, w=w, bre=bre, bim=bim, tot=tot)
+
+
+def _nscat_post(which):
+    def post(st, interp, C, res):
+        if res.outcome == "raise":
+            st.oblige("never-raises", False, kind="raises", info={"exc": res.exc})
+            return
+        self = C["self"]
+        has = z3.And(z3.Not(self.attrs["b_c"].is_none), z3.Not(self.attrs["_number_density"].is_none))
+        v = res.value
+        none3 = isinstance(v, VTuple) and len(v.items) == 3 and all(x is None for x in v.items)
+        if none3:
+            st.oblige("post.None-triple exactly when no SLD is available", z3.Not(has))
+            return
+        st.oblige("post.values exactly when SLD is available", has)
+        N = self.attrs["_number_density"].val * z3.RealVal("1e-24")
+        if which == "scattering":
+            if not is_triple_tuple(v):
+                st.oblige("post.shape", False)
+                return
+            for name, g in spec_scattering_goals(N, C["w"], C["bre"], C["bim"], C["tot"], v):
+                st.oblige("post." + name, g)
+        else:
+            ok = isinstance(v, VTuple) and len(v.items) == 3
+            st.oblige("post.shape", z3.BoolVal(ok))
+            if ok:
+                full = VTuple([v, VTuple([0, 0, 0]), 1])
+                for name, g in spec_scattering_goals(N, C["w"], C["bre"], C["bim"], C["tot"], full)[:3]:
+                    st.oblige("post." + name, g)
+    return post
+
+
+_NINL = {NSF + ".Neutron.has_sld", NSF + ".Neutron.scattering_by_wavelength", NSF + "._calculate_scattering",
+         NSF + ".Neutron.scattering"}
+U_NSCAT = Unit("Neutron.scattering", NSF + ".Neutron.scattering", _nscat_inputs, _nscat_post("scattering"),
+               inline=_NINL, replay={"module": "c03", "task": "replay"})
+U_NSLD = Unit("Neutron.sld", NSF + ".Neutron.sld", _nscat_inputs, _nscat_post("sld"),
+              inline=_NINL, replay={"module": "c03", "task": "replay"})
+
+
+def lemma_element_vs_compound():
+    """an element or isotope queried directly uses N = number_density*1e-24 with number_density =
+    rho_el N_A / m_el (density.number_density; for isotopes nsf.init stores the element's).  The
+    one-atom compound at the atom's own density uses N = 1/((m/rho)/N_A*1e24) with, for an isotope,
+    rho = rho_el*m_iso/m_el (density.density).  Both are the same number."""
+    st = State()
+    rho_el, m_el, m_iso = z3.Reals("rho_el m_el m_iso")
+    NA = z3.RealVal(AVOGADRO)
+    st.assume(z3.And(rho_el > 0, m_el > 0, m_iso > 0))
+    nd = rho_el * NA / m_el
+    direct = nd * z3.RealVal("1e-24")
+    comp_el = 1 / ((m_el / rho_el) / NA * z3.RealVal(10 ** 24))
+    rho_iso = rho_el * m_iso / m_el
+    comp_iso = 1 / ((m_iso / rho_iso) / NA * z3.RealVal(10 ** 24))
+    st.oblige("element", direct == comp_el, kind="lemma", assume_after=False)
+    st.oblige("isotope", direct == comp_iso, kind="lemma", assume_after=False)
+    return [st]
+
+
+L_ELEMENT_VS_COMPOUND = Lemma("element-vs-one-atom-compound", lemma_element_vs_compound)
+
+
+# ------------------------------------------------------------------------------ conversions (C04)
+
+def _conv_unit(fname, check):
+    def mk(st, interp):
+        x = st.fresh("x", z3.RealSort())
+        st.assume(x > 0)
+        return [x], {}, {"x": x}
+
+    def post(st, interp, C, res):
+        if res.outcome == "raise":
+            st.oblige("never-raises-for-positive-argument", False, kind="raises", info={"exc": res.exc})
+            return
+        check(st, interp, C["x"], R(res.value))
+    return Unit(fname, NSF + "." + fname, mk, post, replay={"module": "c04", "task": "replay"})
+
+
+def _ef(st, interp):
+    return R(interp.lookup_global(st, NSF, "ENERGY_FACTOR"))
+
+
+def _vf(st, interp):
+    return R(interp.lookup_global(st, NSF, "VELOCITY_FACTOR"))
+
+
+U_WAVELENGTH = _conv_unit("neutron_wavelength", lambda st, it, x, r: (
+    st.oblige("post.E * lambda^2 == ENERGY_FACTOR", z3.And(r > 0, x * r * r == _ef(st, it)))))
+U_ENERGY = _conv_unit("neutron_energy", lambda st, it, x, r: (
+    st.oblige("post.E * lambda^2 == ENERGY_FACTOR", z3.And(r > 0, r * x * x == _ef(st, it)))))
+U_WAVELENGTH_V = _conv_unit("neutron_wavelength_from_velocity", lambda st, it, x, r: (
+    st.oblige("post.v * lambda == VELOCITY_FACTOR", z3.And(r > 0, r * x == _vf(st, it)))))
+
+
+def _roundtrip_inputs(st, interp):
+    e = st.fresh("energy", z3.RealSort())
+    st.assume(e > 0)
+    return [e], {}, {"e": e}
+
+
+def _roundtrip_post(st, interp, C, res):
+    if res.outcome == "raise":
+        st.oblige("never-raises", False, kind="raises")
+        return
+    from pyvc import extract
+    fn = VFunc(extract.extract(NSF + ".neutron_energy"), [], qualname=NSF + ".neutron_energy")
+    e2 = interp.call_function(st, fn, [res.value], {})
+    st.oblige("post.energy -> wavelength -> energy is the identity", R(e2) == C["e"])
+
+
+U_ROUNDTRIP = Unit("neutron_energy(neutron_wavelength(E))", NSF + ".neutron_wavelength", _roundtrip_inputs,
+                   _roundtrip_post, replay={"module": "c04", "task": "replay"})
+
+
+def _anchor(fname, arg, want, tol):
+    from fractions import Fraction
+
+    def mk(st, interp):
+        return [Fraction(arg)], {}, {}
+
+    def post(st, interp, C, res):
+        if res.outcome == "raise":
+            st.oblige("never-raises", False, kind="raises")
+            return
+        r = R(res.value)
+        st.oblige("anchor.|%s(%s) - %s| < %s" % (fname, arg, want, tol),
+                  z3.And(r - z3.RealVal(want) < z3.RealVal(tol), z3.RealVal(want) - r < z3.RealVal(tol)))
+    return Unit("anchor:%s(%s)" % (fname, arg), NSF + "." + fname, mk, post)
+
+
+U_ANCHOR_E = _anchor("neutron_energy", "1.798", "25.3", "0.05")
+U_ANCHOR_W = _anchor("neutron_wavelength", "25.3", "1.798", "0.0005")
+U_ANCHOR_V = _anchor("neutron_wavelength_from_velocity", "2200", "1.798", "0.0005")
+
+
+def lemma_count_scaling():
+    """multiplying all counts by k > 0 multiplies the four sums by k (instances of
+    SumOver.homogeneous) and therefore leaves N, b and sigma_s - hence every output - unchanged"""
+    st = State()
+    n, M, Bre, Bim, Sg, rho, k = z3.Reals("n M Bre Bim Sg rho k")
+    NA = z3.RealVal(AVOGADRO)
+    st.assume(z3.And(n > 0, M > 0, Sg > 0, rho > 0, k > 0))
+
+    def N_of(n_, M_):
+        return n_ / ((M_ / rho) / NA * z3.RealVal(10 ** 24))
+    st.oblige("number-density-invariant", N_of(k * n, k * M) == N_of(n, M), kind="lemma", assume_after=False)
+    st.oblige("b-invariant", z3.And((k * Bre) / (k * n) == Bre / n, (k * Bim) / (k * n) == Bim / n), kind="lemma", assume_after=False)
+    st.oblige("sigma-invariant", (k * Sg) / (k * n) == Sg / n, kind="lemma", assume_after=False)
+    return [st]
+
+
+L_COUNT_SCALING = Lemma("count-scaling-invariance", lemma_count_scaling)
+
+
+def lemma_density_scaling():
+    """number density is proportional to density: N(k rho) == k N(rho)"""
+    st = State()
+    n, M, rho, k = z3.Reals("n M rho k")
+    NA = z3.RealVal(AVOGADRO)
+    st.assume(z3.And(n > 0, M > 0, rho > 0, k > 0))
+    st.oblige("N(k rho) == k N(rho)",
+              n / ((M / (k * rho)) / NA * z3.RealVal(10 ** 24)) == k * (n / ((M / rho) / NA * z3.RealVal(10 ** 24))), kind="lemma")
+    return [st]
+
+
+L_DENSITY_SCALING = Lemma("number-density-proportional-to-density", lemma_density_scaling)
+
+
+# ------------------------------------------------------------------------------ composite calculator (C17)
+
+def _sp_inputs(st, interp):
+    use_state(st)
+    A = fresh_atom_map(st, "atoms", positive=False)
+    w = st.fresh("wavelength", z3.RealSort())
+    st.assume(w > 0)
+    Fm = VObj("AbstractFormula", {"__atoms__": A})
+    return [w, Fm], {}, {"A": A, "w": w}
+
+
+def _sp_post(st, interp, C, res):
+    if res.outcome == "raise":
+        st.oblige("never-raises", False, kind="raises", info={"exc": res.exc})
+        return
+    n, M, Bre, Bim, Sg = sums(st, C["A"], C["w"])
+    v = res.value
+    ok = isinstance(v, VTuple) and len(v.items) == 4
+    st.oblige("post.shape", z3.BoolVal(ok))
+    if ok:
+        st.oblige("post.num_atoms == sum n_k", spec.eq_goal(interp, st, v.items[0], n))
+        st.oblige("post.molar_mass == sum n_k m_k", spec.eq_goal(interp, st, v.items[1], M))
+        st.oblige("post.b_c == sum n_k b_k(lambda)", spec.eq_goal(interp, st, v.items[2], Cx(Bre, Bim)))
+        st.oblige("post.sigma_s == sum n_k sigma_k(lambda)", spec.eq_goal(interp, st, v.items[3], Sg))
+
+
+_SP = NSF + "._sum_piece"
+U_SUM_PIECE = Unit("_sum_piece", _SP, _sp_inputs, _sp_post,
+                   contracts=dict(NEUTRON_REC, **{"AbstractFormula.atoms@get": c_atoms_of_abstract}),
+                   loops={(_SP, 1): {"define": _mk_defs(["num_atoms", "molar_mass", "b_c", "sigma_s"])}},
+                   replay={"module": "c17", "task": "replay"})
+
+
+def _compute_unit(k):
+    target = NSF + ".neutron_composite_sld::_compute"
+
+    def closure(interp):
+        return [C_env]
+    C_env = {}
+
+    def mk(st, interp):
+        use_state(st)
+        parts = []
+        for j in range(k):
+            parts.append(tuple(st.fresh("%s_%d" % (nm, j), z3.RealSort()) for nm in ("n", "M", "Bre", "Bim", "Sg")))
+            st.assume(z3.And(parts[-1][0] > 0, parts[-1][1] > 0, parts[-1][4] > 0))
+        ws = [st.fresh("w_%d" % j, z3.RealSort()) for j in range(k)]
+        for wj in ws:
+            st.assume(wj >= 0)
+        rho = st.fresh("density", z3.RealSort())
+        st.assume(rho >= 0)
+        C_env.clear()
+        C_env.update({
+            "is_multi": st.fresh("is_multi", z3.BoolSort()),
+            "num_atoms_parts": VArrN([p[0] for p in parts]),
+            "molar_mass_parts": VArrN([p[1] for p in parts]),
+            "bc_parts": VArrN([Cx(p[2], p[3]) for p in parts]),
+            "sigma_parts": VArrN([p[4] for p in parts]),
+        })
+        return [VArrN(ws), rho], {}, {"parts": parts, "ws": ws, "rho": rho}
+
+    def post(st, interp, C, res):
+        if res.outcome == "raise":
+            st.oblige("never-raises", False, kind="raises", info={"exc": res.exc})
+            return
+        ws, parts, rho = C["ws"], C["parts"], C["rho"]
+        n = sum(w * p[0] for w, p in zip(ws, parts))
+        M = sum(w * p[1] for w, p in zip(ws, parts))
+        Bre = sum(w * p[2] for w, p in zip(ws, parts))
+        Bim = sum(w * p[3] for w, p in zip(ws, parts))
+        Sg = sum(w * p[4] for w, p in zip(ws, parts))
+        v = res.value
+        ok = isinstance(v, VTuple) and len(v.items) == 3
+        st.oblige("post.shape", z3.BoolVal(ok))
+        if not ok:
+            return
+        zero = all(is_concrete_num(x) and x == 0 for x in v.items)
+        if zero:
+            st.oblige("post.zeros only for zero total weight or zero density", M * rho == 0)
+            return
+        st.oblige("post.values only when mass*density != 0", M * rho != 0)
+        N = n / ((M / rho) / z3.RealVal(AVOGADRO) * z3.RealVal(10 ** 24))
+        full = VTuple([v, VTuple([0, 0, 0]), 1])
+        for name, g in spec_scattering_goals(N, z3.RealVal(1), Bre / n, Bim / n, Sg / n, full)[:3]:
+            st.oblige("post.same as direct calculation on the weighted sums: " + name, g)
+    return Unit("neutron_composite_sld._compute[%d materials]" % k, target, mk, post, closure=closure,
+                replay={"module": "c17", "task": "replay"})
+
+
+U_COMPUTE_1 = _compute_unit(1)
+U_COMPUTE_2 = _compute_unit(2)
+U_COMPUTE_3 = _compute_unit(3)
